@@ -38,7 +38,21 @@ def loop_paths(body, header, blocks, atoms, effects, init, flag, max_paths=400, 
             return ("atom", v[1])
         return None
 
-    def run(b, vals, enums, cons, effs, depth, first):
+    def opval(op, vals):
+        """symbolic value of an operand: constant bool, a tracked local, the flag's value at the start of the round"""
+        if not isinstance(op, dict):
+            return None
+        if op.get("k") == "const":
+            return (op.get("v") == "true") if op.get("v") in ("true", "false") else None
+        s = _copy_src(op)
+        if s is None:
+            return None
+        if s in vals:
+            return vals[s]
+        return "old" if s == flag else None
+
+    def run(b, vals, enums, cons, effs, depth, first, pay=None):
+        pay = dict(pay or {})
         if len(results) > max_paths or depth > 200:
             complete[0] = False
             return
@@ -67,6 +81,7 @@ def loop_paths(body, header, blocks, atoms, effects, init, flag, max_paths=400, 
             l, rv = st["p"]["l"], st["rv"]
             vals.pop(l, None)
             enums.pop(l, None)
+            pay.pop(l, None)
             if rv["k"] == "use":
                 op = rv["op"]
                 if op.get("k") == "const" and op.get("v") in ("true", "false"):
@@ -80,6 +95,18 @@ def loop_paths(body, header, blocks, atoms, effects, init, flag, max_paths=400, 
                             vals[l] = "old"
                         if s in enums:
                             enums[l] = enums[s]
+                        if s in pay:
+                            pay[l] = pay[s]
+                    elif op.get("k") in ("copy", "move") and op["p"].get("p"):
+                        # a payload read: `(x as Some).0` of an enum value built on this path
+                        pr = [e for e in op["p"]["p"] if e.get("k") != "downcast"]
+                        base = op["p"]["l"]
+                        if len(pr) == 1 and pr[0].get("k") == "field" and base in pay and pr[0].get("i", 0) < len(pay[base]):
+                            dc = [e for e in op["p"]["p"] if e.get("k") == "downcast"]
+                            if not dc or dc[0].get("variant") == enums.get(base):
+                                v = pay[base][pr[0]["i"]]
+                                if v is not None:
+                                    vals[l] = v
             elif rv["k"] == "unop" and rv["op"] == "Not":
                 s = _copy_src(rv["a"])
                 v = vals.get(s, "old" if s == flag else None)
@@ -92,6 +119,7 @@ def loop_paths(body, header, blocks, atoms, effects, init, flag, max_paths=400, 
                         vals[l] = nv
             elif rv["k"] == "aggregate" and rv.get("agg") == "adt":
                 enums[l] = rv.get("variant")
+                pay[l] = [opval(o, vals) for o in rv.get("ops", [])]
                 if agg_effects and rv.get("adt") in agg_effects:
                     effs = effs + ["%s%s" % (agg_effects[rv["adt"]], rv.get("variant"))]
             elif rv["k"] == "discr":
@@ -107,6 +135,7 @@ def loop_paths(body, header, blocks, atoms, effects, init, flag, max_paths=400, 
             if d is not None:
                 vals.pop(d, None)
                 enums.pop(d, None)
+                pay.pop(d, None)
             hit = False
             for pat, name in atoms.items():
                 if is_callee(t, pat):
@@ -119,10 +148,10 @@ def loop_paths(body, header, blocks, atoms, effects, init, flag, max_paths=400, 
             if t.get("t") is None:
                 results.add((frozenset(cons), tuple(effs), "diverge", None))
                 return
-            run(t["t"], vals, enums, cons, effs, depth + 1, False)
+            run(t["t"], vals, enums, cons, effs, depth + 1, False, pay)
             return
         if k in ("goto", "drop", "assert"):
-            run(t["t"], vals, enums, cons, effs, depth + 1, False)
+            run(t["t"], vals, enums, cons, effs, depth + 1, False, pay)
             return
         if k == "switch":
             s = _copy_src(t["discr"])
@@ -136,10 +165,10 @@ def loop_paths(body, header, blocks, atoms, effects, init, flag, max_paths=400, 
                         return tb
                 return other
             if isinstance(v, bool):
-                run(edge_for(v), vals, enums, cons, effs, depth + 1, False)
+                run(edge_for(v), vals, enums, cons, effs, depth + 1, False, pay)
                 return
             if isinstance(v, tuple) and v[0] == "disc":
-                run(edge_for(v[1]), vals, enums, cons, effs, depth + 1, False)
+                run(edge_for(v[1]), vals, enums, cons, effs, depth + 1, False, pay)
                 return
             if v == "old" or v == ("notold",):
                 known = dict(cons).get("flag_old")
@@ -148,19 +177,19 @@ def loop_paths(body, header, blocks, atoms, effects, init, flag, max_paths=400, 
                     vv[flag] = fv if vals.get(flag, "old") == "old" else vals.get(flag)
                     test = fv if v == "old" else (not fv)
                     vv[s] = test
-                    run(edge_for(test), vv, enums, cons | {("flag_old", fv)}, effs, depth + 1, False)
+                    run(edge_for(test), vv, enums, cons | {("flag_old", fv)}, effs, depth + 1, False, pay)
                 return
             if isinstance(v, tuple) and v[0] in ("atom", "not"):
                 known = dict(cons).get(v[1])
                 for av in ([known] if isinstance(known, bool) else [True, False]):
                     test = av if v[0] == "atom" else (not av)
-                    run(edge_for(test), vals, enums, cons | {(v[1], av)}, effs, depth + 1, False)
+                    run(edge_for(test), vals, enums, cons | {(v[1], av)}, effs, depth + 1, False, pay)
                 return
             # an unknown test: explore both sides and say so
             complete[0] = False
             for x, tb in targets:
-                run(tb, vals, enums, cons | {("unknown@bb%d" % b, x)}, effs, depth + 1, False)
-            run(other, vals, enums, cons | {("unknown@bb%d" % b, "otherwise")}, effs, depth + 1, False)
+                run(tb, vals, enums, cons | {("unknown@bb%d" % b, x)}, effs, depth + 1, False, pay)
+            run(other, vals, enums, cons | {("unknown@bb%d" % b, "otherwise")}, effs, depth + 1, False, pay)
             return
         if k == "return":
             results.add((frozenset(cons), tuple(effs), "exit", None))
